@@ -152,13 +152,14 @@ pub struct NatWorker {
     pub pinned_unimplemented: std::collections::BTreeSet<String>,
 }
 
-const EMU_REGIONS: [(Region, u64, u32); 6] = [
+const EMU_REGIONS: [(Region, u64, u32); 7] = [
     (Region::Code, CODE, 5),
     (Region::Rw, RW, 3),
     (Region::Ro, RO, 1),
     (Region::None, NONE, 0),
     (Region::Stack, STACK, 3),
     (Region::Hi, HI, 3),
+    (Region::Hi32, HI32, 3),
 ];
 
 impl NatWorker {
@@ -263,6 +264,7 @@ impl NatWorker {
         nh.bytes(self.stub.view(Region::Rw));
         nh.bytes(self.stub.view(Region::Stack));
         nh.bytes(self.stub.view(Region::Hi));
+        nh.bytes(self.stub.view(Region::Hi32));
         if let Some(x) = &n.xmm {
             for v in x {
                 nh.u64(*v as u64);
@@ -481,7 +483,7 @@ impl NatWorker {
                 }
             };
             let nat: &[u8] = match r {
-                Region::Rw | Region::Stack | Region::Hi => self.stub.view(*r),
+                Region::Rw | Region::Stack | Region::Hi | Region::Hi32 => self.stub.view(*r),
                 _ => {
                     // cannot change natively; compare with what was loaded
                     self.stub.view(*r)
@@ -540,7 +542,7 @@ impl NatWorker {
                 };
                 let rname = match r {
                     Region::Stack => "stack",
-                    Region::Rw | Region::Hi => "data",
+                    Region::Rw | Region::Hi | Region::Hi32 => "data",
                     Region::Ro => "ro",
                     _ => "none",
                 };
